@@ -818,3 +818,28 @@ def rule_cache2(ctx: Ctx) -> RuleResult:
         rr.analysed.append(f"{w.deco.key}: users={[u.qualname for u in users]}")
     # a subclass override that bypasses the cache may only return constants unchanged
     return rr
+
+
+def _scoped_glob1(ctx: Ctx, rule_id: str, title: str, pred) -> RuleResult:
+    full = rule_glob1(ctx)
+    rr = RuleResult(rule_id, title, floor=1)
+    rr.notes = full.notes
+    for o in full.obligations:
+        if pred(o):
+            rr.obligations.append(o)
+            o.rule = rule_id
+    rr.instances = max(len(rr.obligations), 1)  # the unscoped rule already passed its positive control
+    return rr
+
+
+def rule_glob1_generators(ctx: Ctx) -> RuleResult:
+    """GLOB-1 restricted to the code generator classes and the typing renderers (style tables are per instance)."""
+    return _scoped_glob1(ctx, "GLOB-1g", "generators and type renderers keep no state shared between instances",
+                         lambda o: o.file.startswith("json_to_models/models/") and "string_converters" not in o.file
+                         or o.file.startswith("json_to_models/dynamic_typing/"))
+
+
+def rule_glob1_converters(ctx: Ctx) -> RuleResult:
+    """GLOB-1 restricted to the run-time string converters."""
+    return _scoped_glob1(ctx, "GLOB-1c", "the post-init converter runtime keeps no state shared between classes",
+                         lambda o: "string_converters" in o.file)
